@@ -470,7 +470,10 @@ pub fn gen_hist<W: Write>(prop: &str, r: &mut Rng, thorough: bool, out: &mut W) 
             "C14" => if r.chance(1, 4) { 100 } else { 0 },
             _ => *r.pick(&[0usize, 50, 150, 400]),
         };
-        let t0 = rand_table(r, k, rc, nsamp, nrows, "s", amb, &[]);
+        // sample names: plain, or with dots and sequence-file extensions inside (a name is a name,
+        // not a file name: nothing may be stripped from it)
+        let prefix = *r.pick(&["s", "s", "E.fae", "n.fastq_", "x.fa.", "a.b-c.fasta."]);
+        let t0 = rand_table(r, k, rc, nsamp, nrows, prefix, amb, &[]);
         let pool: Vec<Vec<u8>> = t0.rows.iter().map(|x| x.0.clone()).collect();
         let head = format!("hist w={w} k={k} rc={} start={}", rc as u8, t0.text());
         match prop {
@@ -927,7 +930,47 @@ fn flip_case(b: u8) -> u8 {
     }
 }
 
+/// read sets of the C12 generator, each also with its records permuted inside and between the two
+/// files: the dictionary of a sample must not depend on the order of its reads
+fn gen_read_permutations<W: Write>(r: &mut Rng, thorough: bool, out: &mut W) {
+    let mut buf: Vec<u8> = Vec::new();
+    gen_c12(r, false, &mut buf);
+    let text = String::from_utf8(buf).unwrap();
+    let want = if thorough { 400 } else { 120 };
+    for line in text.lines().filter(|l| l.starts_with("reads ")).take(want) {
+        writeln!(out, "{line}").unwrap();
+        let mut parts: Vec<String> = line.split(' ').map(|x| x.to_string()).collect();
+        let mut all: Vec<String> = Vec::new();
+        for p in parts.iter() {
+            if let Some(v) = p.strip_prefix("r1=").or(p.strip_prefix("r2=")) {
+                if v != "~" && !v.is_empty() {
+                    all.extend(v.split(',').map(|x| x.to_string()));
+                }
+            }
+        }
+        for i in (1..all.len()).rev() {
+            let j = r.below(i + 1);
+            all.swap(i, j);
+        }
+        // both files keep at least one read (an empty FASTQ file is a parse error, not a sample)
+        if all.len() < 2 {
+            continue;
+        }
+        let cut = 1 + r.below(all.len() - 1);
+        let side = |v: &[String]| if v.is_empty() { "~".to_string() } else { v.join(",") };
+        for p in parts.iter_mut() {
+            if p.starts_with("r1=") {
+                *p = format!("r1={}", side(&all[..cut]));
+            } else if p.starts_with("r2=") {
+                *p = format!("r2={}", side(&all[cut..]));
+            }
+        }
+        writeln!(out, "{}", parts.join(" ")).unwrap();
+    }
+}
+
 fn gen_c02<W: Write>(r: &mut Rng, thorough: bool, out: &mut W) {
+    gen_read_permutations(r, thorough, out);
     let rounds = if thorough { 1200 } else { 25 };
     for _ in 0..rounds {
         for k in valid_ks() {
@@ -1102,10 +1145,12 @@ fn gen_c15<W: Write>(r: &mut Rng, thorough: bool, out: &mut W) {
         }
         writeln!(
             out,
-            "hist w={w} k={k} rc={} start={}|{} ops=~ obs=dist/0/0;dist/0/1;rawdist/{}",
+            "hist w={w} k={k} rc={} start={}|{} ops=~ obs=dist/0/0;dist/0/1;dist/{}/0;dist/{}/1;rawdist/{}",
             rc as u8,
             names.join(","),
             rows.join(","),
+            1 + r.below(nsamp),
+            1 + r.below(nsamp),
             r.below(3)
         )
         .unwrap();
